@@ -2760,6 +2760,8 @@ class Network:
             for index, i in enumerate(path_tuple):
                 if isa(i, Network) and not network.isdisjoint(i):
                     i.join_recycle_network(network)
+                    # Units that moved into the subnetwork must not stay in this path as well
+                    self._remove_overlap(network, path_tuple)
                     self.units.update(subunits)
                     return
             if self.recycle:
